@@ -298,3 +298,8 @@ Fixpoint forall2b {A B} (f : A -> B -> bool) (l : list A) (m : list B) : bool :=
 Definition hist_oeqb (m o : hist_out) : bool := forall2b c06_oeqb m o.
 Definition hist_ok (h : hist_in) (o : hist_out) : bool := forall2b (fun c x => c06_ok (snd c) x) h o.
 Definition hist_judge := judge hist_model hist_oeqb hist_ok (fun _ => 0%N).
+
+(* the observer sets come from the RMNHome observer bitmaps (pkg/reader/rmn_home.go): parts borrowed from C18 *)
+Require Verif.Check.C18_check.
+Definition bm18_judge := Verif.Check.C18_check.bm_judge.
+Definition conv18_judge := Verif.Check.C18_check.conv_judge.
